@@ -7,7 +7,7 @@ PID = "C12"
 THEOREMS = ["Inv_init", "step_correct", "history_independent", "reachable_inv", "mutators_take_effect"]
 RULE = ("random histories of 1..12 public queries and mutators (rank, isvalid, idxs_pit, idxs_seq, nnodes, idxs_us_main, "
         "main_upstream(user area), stream_order(strahler/classic, with/without mask), distnc, area, upstream_area, "
-        "accuflux, basins, path up/down, add_pits, repair_loops, set_transform, order_cells(sort|walk), dump+load) on "
+        "accuflux, basins, exports, stream_distance(mask, m), path up/down, add_pits (also with a repeated location), repair_loops, set_transform, order_cells(sort|walk), dump+load) on "
         "raster and vector objects with cache on and off, networks with and without loops; after every step (i) the "
         "occupancy of the eight memo slots and the cache flag are compared with the model state machine and (ii) the "
         "returned value is compared with the same query on a freshly constructed object holding the current network, "
@@ -17,7 +17,7 @@ ASSUMPTIONS = ["kernels are abstract in the model (values are tags of what they 
                "result does not depend on WHICH topological order is memoised is C03/C04/C05/C08's order-independence",
                "orders (idxs_seq) are compared as sets; floats with np.array_equal on the same code path"]
 
-OPS_RASTER = list(range(0, 21))
+OPS_RASTER = list(range(0, 22))       # 21: stream_distance(mask, unit='m'), raster only
 OPS_VECTOR = [0, 1, 2, 3, 4, 5, 6, 7, 8, 12, 13, 14, 15, 16, 17, 19, 20, 11]
 CORPUS = [
     [(7, 3), (7, 0)], [(7, 0), (7, 3)],                      # Strahler memo vs mask
@@ -30,6 +30,8 @@ CORPUS = [
     [(13, 1), (16, 5), (13, 1)], [(13, 2), (16, 5), (13, 2)], [(13, 1), (17, 1), (13, 1)],      # exports after mutators
     [(8, 0), (7, 0)], [(7, 0), (8, 0)], [(8, 0), (7, 0), (8, 0)],                                # classic vs Strahler memo
     [(11, 1), (11, 1)], [(11, 1), (10, 0)], [(11, 1), (11, 0), (11, 1)],                         # repeated unit conversions
+    [(21, 1), (21, 0)], [(21, 1), (9, 0)], [(9, 0), (21, 2), (21, 0)], [(21, 0), (18, 1), (21, 0)], [(21, 2), (18, 0), (9, 0)],   # stream distance vs distnc memo
+    [(16, 5), (11, 0), (13, 0)], [(16, 4), (3, 0), (12, 1)],                                     # add_pits (odd position: repeated index) then accumulate
 ]
 
 
@@ -39,7 +41,7 @@ def corpus():
     dsl = [0, 0, 1, 4, 3, 1]      # 3 <-> 4 loop
     for ops in CORPUS:
         for raster in (1, 0):
-            if not raster and any(c in (9, 10, 18) or (c == 11 and a) for c, a in ops):
+            if not raster and any(c in (9, 10, 18, 21) or (c == 11 and a) for c, a in ops):
                 continue
             for cache in (1, 0):
                 net = dsl if any(c == 17 for c, _ in ops) else ds
@@ -73,6 +75,8 @@ def cases(tier, rng):
                 a = rng.randrange(2) if raster else 0
             elif c == 13:
                 a = rng.randrange(3) if raster else 0
+            elif c == 21:
+                a = rng.choice([0, 0, 1, 2])
             elif c == 19:
                 a = rng.randrange(2)
             elif c == 18:
@@ -177,6 +181,8 @@ def impl(case):
                 v = o.to_array("nextxy" if arg == 1 else "d8")
                 return [np.asarray(x).ravel().tolist() for x in (v if arg == 1 else [v])]
             return np.asarray(o.basins()).ravel().tolist() if raster else sorted(int(x) for x in o.idxs_pit)
+        if c == 21:
+            return np.asarray(o.stream_distance(mask=None if arg == 0 else R(_arr("mask", arg, n)), unit="m")).ravel().tolist()
         if c in (14, 15):
             start = np.array([n - 1])
             p, d = o.path(idxs=start, direction="up" if c == 14 else "down")
@@ -184,7 +190,7 @@ def impl(case):
         raise ValueError(c)
     for c, arg in ops:
         flag = 1
-        if c <= 15:
+        if c <= 15 or c == 21:
             st, v = call_impl(query, obj, c, arg, timeout=2)
             fresh = build(np.asarray(obj.idxs_ds).copy(), obj.transform if raster else None, getattr(obj, "latlon", False), obj.cache)
             st2, v2 = call_impl(query, fresh, c, arg, timeout=2)
@@ -193,7 +199,7 @@ def impl(case):
                 out.append(occ(obj) + [flag])
                 return out + [[-5, c, arg]]
         elif c == 16:
-            obj.add_pits(idxs=np.array([arg]))
+            obj.add_pits(idxs=np.array([arg, arg] if (arg + len(out)) % 2 else [arg]))      # also with a repeated location
         elif c == 17:
             obj.repair_loops()
         elif c == 18:
